@@ -350,7 +350,7 @@ class Interp:
                 vals = tuple(self.value(st, o) for o in ops)
                 return ('agg', rv['path'], rv['variant'], tuple(zip(rv['fields'], vals)))
             if rv['agg'] == 'closure':
-                vals = tuple(self.value(st, o) for o in ops)
+                vals = tuple(self.at_wrap(o[1], self.value(st, o)) if o[0] == 'ref' else self.value(st, o) for o in ops)
                 locs = tuple(o[1] if o[0] == 'ref' else None for o in ops)
                 self._closure_locs[(rv['uid'], vals)] = locs
                 return ('closure', rv['uid'], vals)
